@@ -334,9 +334,22 @@ def run_cuba(c):
                            r=rs.uniform(0.5, 3, n), v_leak=rs.uniform(-0.5, 0.5, n), v_threshold=rs.uniform(0.6, 1.5, n),
                            w_in=rs.uniform(0.5, 4, n))
         x = (rs.uniform(0, 1, size=(c["steps"], n)) < 0.4).astype(float) * rs.uniform(0.5, 2)
+    if not c["exact"] and c["seed"] % 4 == 0:
+        # the state buffers are allocated like v_threshold: a narrower threshold dtype must not narrow the arithmetic
+        node.v_threshold = node.v_threshold.astype(np.float32)
     impl = C.CubaLIFImplementation(dt, node)
     with quiet():
         out = C.run_cuba_reference_model(impl, x)
+        # ... and the same run through forward() directly, KEEPING the returned arrays (no copies): what forward returned for
+        # step t must still be the state of step t after later steps
+        impl2 = C.CubaLIFImplementation(dt, node)
+        kept = [impl2.forward(x[t]) for t in range(c["steps"])]
+    for t, (z, v, cur) in enumerate(kept):
+        if not (np.array_equal(np.asarray(z, dtype=float), out["spikes"][t]) and np.array_equal(np.asarray(v, dtype=float), out["voltages"][t])
+                and np.array_equal(np.asarray(cur, dtype=float), out["currents"][t])):
+            return Outcome(None, f"CubaLIF reference model: the arrays forward() returned for step {t} no longer hold the state of "
+                                 f"step {t} after {c['steps'] - 1 - t} further steps (dt={dt}, n={n})", True,
+                           ("cuba", c["n"], c["steps"], c["exact"], c["seed"]))
     # independent per-element forward Euler of the documented equations
     fail = None
     for j in range(n):
